@@ -48,6 +48,7 @@ InitS == [ prev     |-> 0,        \* evaluation time of the last cycle (the star
            fPush    |-> FALSE,    \* push_update_pending as set/cleared under the executor mutex
            fStop    |-> FALSE,    \* stop flag as set under the executor mutex
            wallNext |-> 0,        \* the executor's own wall reading at its last computation of the next time
+           nextT    |-> 0,        \* the time it computed for the upcoming cycle
            cut      |-> FALSE,    \* the drain bound was applied
            ended    |-> FALSE ]
 
@@ -104,10 +105,13 @@ OnHook(e) ==
              IF S.fPush \/ S.fStop THEN Fail("C17.notification_lost_while_waiting") ELSE Ok(S)
       \* the stop flag is set before its point is numbered and the loop tests it after this point: a request numbered
       \* earlier must end the run without another cycle (there is no "current cycle" while the loop waits)
-      [] e.p = "rt_compute_next"  -> Ok([S EXCEPT !.wallNext = e.b, !.inCycle = FALSE, !.noMore = S.fStop])
+      [] e.p = "rt_compute_next"  -> Ok([S EXCEPT !.wallNext = e.b, !.nextT = e.a, !.inCycle = FALSE, !.noMore = S.fStop])
       [] e.p = "rt_drain_cut"     ->
-             IF S.wallNext >= End /\ S.consec >= DrainBound THEN Ok([S EXCEPT !.cut = TRUE])
-             ELSE Fail("C17.run_cut_short_without_the_sanctioned_drain")
+             \* "only a run that keeps re-scheduling itself every smallest step after the wall clock has passed the end":
+             \* a long run of smallest steps behind it AND the upcoming cycle again one smallest step ahead
+             IF S.wallNext < End \/ S.consec < DrainBound THEN Fail("C17.run_cut_short_without_the_sanctioned_drain")
+             ELSE IF S.nextT > S.prev + 1 THEN Fail("C17.run_cut_short_although_it_stopped_rescheduling_every_smallest_step")
+             ELSE Ok([S EXCEPT !.cut = TRUE])
       [] OTHER                    -> Ok(S)
 
 OnRunRet(e) ==
